@@ -1333,12 +1333,9 @@ func constStringsOf(v ssa.Value, seen map[ssa.Value]bool) []string {
 
 // R7: the methods of a spec that act on one block of a type act on the same one.
 func c07BlockSelection(c *Ctx) {
-	c.Rule("R7 spec.select: in every hcldec Spec method (decode, variablesNeeded, sourceRange, …) that picks a single *hcl.Block out of content.Blocks in a loop, the block picked is the FIRST matching one: the assignment is followed by leaving the loop, or is made only while nothing has been picked yet — so the variables reported, the source range and the value decoded all belong to the same block")
+	c.Rule("R7 spec.select: in every hcldec function (the decode, variablesNeeded, sourceRange methods of the specs and their helpers) that picks a single *hcl.Block out of content.Blocks in a loop, the block picked is the FIRST matching one: the assignment is followed by leaving the loop, or is made only while nothing has been picked yet — so the variables reported, the source range and the value decoded all belong to the same block")
 	n := 0
 	for _, fn := range c.P.pkgFuncs("hcldec") {
-		if fn.Signature.Recv() == nil {
-			continue
-		}
 		for _, b := range fn.Blocks {
 			for _, ins := range b.Instrs {
 				phi, ok := ins.(*ssa.Phi)
@@ -1405,7 +1402,7 @@ func c07BlockSelection(c *Ctx) {
 			}
 		}
 	}
-	c.Floor("spec.select loops", n, 2, "BlockSpec.decode, BlockSpec.variablesNeeded")
+	c.Floor("spec.select loops", n, 1, "the block selection of BlockSpec.decode")
 }
 
 // underNilTest: block b is dominated by the edge on which v == nil.
